@@ -5,7 +5,12 @@
 (*           (width, wrap, align): <<glyph, attribute, kind, source position>>;             *)
 (*           kind "c" a character of the text, "p" alignment padding, "h" blank standing    *)
 (*           for a character that did not fit (cut wide character), "m" inserted mark       *)
+(*   trim    the rows of one rendering, per screen column, and the same rows clipped on the *)
+(*           left / right at every column by Canvas.content(trim_left, cols),               *)
+(*           pad_trim_left_right, an Overlay window and Padding(width='clip')               *)
 (*   maps    cells before / after a chain of AttrMap, AttrWrap, fill_attr, fill_attr_apply  *)
+(*   set, hrender, reread, apply   a widget stack living through map changes while earlier  *)
+(*           canvases are held (stage 2b); the chain of maps is state of this specification *)
 (*   put, sgr, cup, ... the tokens of the bytes the real raw_display.Screen wrote, run on   *)
 (*           the reference terminal (Terminal.tla through RawDisplayTrace's Apply)          *)
 (*   frame   canvas cells <<glyph, attribute name, part>>: the model screen must show each  *)
@@ -15,14 +20,19 @@ EXTENDS AttrFlowOps, Json, IOUtils
 
 Traces == JsonDeserialize(IOEnv.TRACE_FILE)
 
-VARIABLES tid, l, term, ok, why
-vars == <<tid, l, term, ok, why>>
+VARIABLES tid, l, term, hist, ok, why
+vars == <<tid, l, term, hist, ok, why>>
 
 RD == INSTANCE RawDisplayTrace      \* Terminal.tla + token interpretation + bright-is-bold normalisation (C04)
+
+\* history state (stage 2b): the chain of maps as it is now, and per held canvas the chain / focus flag it was rendered with
+NoHist == [chain |-> <<>>, held |-> <<>>, fnone |-> {}]
+HistInit(tr) == IF "chain0" \in DOMAIN tr THEN [chain |-> tr.chain0, held |-> <<>>, fnone |-> {}] ELSE NoHist
 
 Init == /\ tid \in 1..Len(Traces)
         /\ l = 0
         /\ term = RD!NewTerm(Traces[tid].w, Traces[tid].h)
+        /\ hist = HistInit(Traces[tid])
         /\ ok = TRUE
         /\ why = "-"
 
@@ -63,12 +73,50 @@ RenderVerdict(tr, e) ==
      ELSE LET p == CHOOSE p \in bad : \A q \in bad : p[1] < q[1] \/ (p[1] = q[1] /\ p[2] <= q[2])
           IN CellClause(tr.markup, txt, e.rows[p[1]][p[2]])
 
+(* ---- stage 1b: the rendered rows clipped on the left / right ("clipping ... never shift[s] an attribute") ---- *)
+\* base cell: <<glyph, attribute, kind, source position, part>> per screen column of the unclipped row (part 0 = narrow,
+\* 1 / 2 = left / right half of a double-width character); a cut shows columns left+1 .. left+cols of row y of the base;
+\* its cells are <<glyph, attribute, part>>.  Every column keeps its glyph and the attribute of its source character; a
+\* double-width character with one half outside is shown as a blank, and that blank is what remains of *that* character:
+\* it carries that character's attribute, never the attribute of the character next to it (and never none).
+TrimCellClause(mk, b, cut, x) ==
+  LET o == b[cut.left + x]
+      c == cut.cells[x]
+      n == Size(mk)
+      halved == (o[5] = 2 /\ x = 1) \/ (o[5] = 1 /\ x = cut.cols)
+      want == IF o[3] = "c" /\ o[4] >= 1 /\ o[4] <= n THEN AttrOf(mk, o[4]) ELSE o[2]
+  IN
+  IF halved THEN
+       IF c[1] # 32 \/ c[3] # 0 THEN "cell_traces_to_a_source_character"
+       ELSE IF c[2] = want THEN "-"
+       ELSE "remnant_of_cut_wide_character_keeps_its_attribute"
+  ELSE IF c[1] # o[1] \/ c[3] # o[5] THEN "cell_traces_to_a_source_character"
+  ELSE IF c[2] = want THEN "-"
+  ELSE "clipping_never_shifts_an_attribute"
+
+TrimCutClause(mk, e, cut) ==
+  IF cut.y < 1 \/ cut.y > Len(e.base) THEN "clipped_rows_match_the_unclipped_rows"
+  ELSE LET b == e.base[cut.y] IN
+       IF cut.left < 0 \/ cut.cols < 1 \/ cut.left + cut.cols > Len(b) \/ Len(cut.cells) # cut.cols THEN "clipped_row_has_the_requested_width"
+       ELSE LET bad == {x \in 1..cut.cols : TrimCellClause(mk, b, cut, x) # "-"} IN
+            IF bad = {} THEN "-" ELSE TrimCellClause(mk, b, cut, CHOOSE x \in bad : \A q \in bad : x <= q)
+
+TrimVerdict(tr, e) ==
+  LET txt == TextOf(tr.markup)
+      \* the unclipped rows are judged like a render event first
+      base4 == [y \in 1..Len(e.base) |-> [x \in 1..Len(e.base[y]) |-> SubSeq(e.base[y][x], 1, 4)]]
+      bb == {p \in UNION {{<<y, x>> : x \in 1..Len(base4[y])} : y \in 1..Len(base4)} : CellClause(tr.markup, txt, base4[p[1]][p[2]]) # "-"}
+      bad == {j \in 1..Len(e.cuts) : TrimCutClause(tr.markup, e, e.cuts[j]) # "-"}
+  IN IF bb # {} THEN LET p == CHOOSE p \in bb : \A q \in bb : p[1] < q[1] \/ (p[1] = q[1] /\ p[2] <= q[2])
+                     IN CellClause(tr.markup, txt, base4[p[1]][p[2]])
+     ELSE IF bad = {} THEN "-"
+     ELSE TrimCutClause(tr.markup, e, e.cuts[CHOOSE j \in bad : \A q \in bad : j <= q])
+
 (* ---- stage 2: attribute maps ---- *)
 \* cell: <<glyph before, attribute before, level that produced the cell, glyph after, attribute after>>
-MapsCellClause(e, c) ==
+MapsCellClauseC(chain, f, c) ==
   LET ab == c[2]  lvl == c[3]  ag == c[5]
-      sub == Outside(e.chain, lvl)
-      f == e.focus
+      sub == Outside(chain, lvl)
       want == ApplyMaps(sub, f, ab)
       \* the attribute as it reaches map j
       at(j) == ApplyMaps(SubSeq(sub, 1, j - 1), f, ab)
@@ -81,9 +129,49 @@ MapsCellClause(e, c) ==
   ELSE IF Len(sub) >= 2 THEN "outer_map_applied_to_result_of_inner"
   ELSE "map_replaces_exactly_the_listed_attributes"
 
-MapsVerdict(e) ==
-  LET bad == {j \in 1..Len(e.cells) : MapsCellClause(e, e.cells[j]) # "-"}
-  IN IF bad = {} THEN "-" ELSE MapsCellClause(e, e.cells[CHOOSE j \in bad : \A q \in bad : j <= q])
+MapsCellsVerdict(chain, f, cells) ==
+  LET bad == {j \in 1..Len(cells) : MapsCellClauseC(chain, f, cells[j]) # "-"}
+  IN IF bad = {} THEN "-" ELSE MapsCellClauseC(chain, f, cells[CHOOSE j \in bad : \A q \in bad : j <= q])
+MapsVerdict(e) == MapsCellsVerdict(e.chain, e.focus, e.cells)
+
+(* ---- stage 2b: histories.  One widget stack lives through a trace; the specification keeps its chain of maps (changed ---- *)
+(* by "set" events: set_attr_map, set_focus_map, set_attr, set_focus_attr, property assignment) and, for every canvas  *)
+(* the application still holds, the chain and focus flag it was rendered with.  Every rendering shows the outer map     *)
+(* applied to the result of the inner one *for the maps as they are now*; a canvas that is still held keeps showing     *)
+(* what it showed (rendering the same widgets again, or applying a map to a copy of it, does not change it); a widget   *)
+(* rendered on its own shows the maps inside it only.                                                                   *)
+\* AttrWrap.set_focus_attr(None): "If None this widget will use the attr instead (no change when in focus)".  The elements
+\* last changed that way are remembered (fnone) only to give the rejection a name of its own when the widget behaves as if a
+\* focus map {None: None} had been installed instead (LiteralNone): the verdict itself follows the documentation.
+FocusAttrNone == "AttrWrap.set_focus_attr(None)"
+LiteralNone(chain, fnone) ==
+  [j \in 1..Len(chain) |-> IF j \in fnone THEN [chain[j] EXCEPT !.hasf = TRUE, !.fmap = <<<<None, None>>>>] ELSE chain[j]]
+HistNext(h, e) ==
+  CASE e.t = "set" /\ e.j >= 1 /\ e.j <= Len(h.chain) ->
+         [h EXCEPT !.chain[e.j] = IF e.which = "amap" THEN [@ EXCEPT !.amap = e.map]
+                                  ELSE [@ EXCEPT !.hasf = e.hasf, !.fmap = e.map],       \* no focus map: "will use the attr mapping instead"
+                   !.fnone = IF e.which # "fmap" THEN @ ELSE IF e.how = FocusAttrNone THEN @ \cup {e.j} ELSE @ \ {e.j}]
+    [] e.t = "hrender" /\ e.upto >= 0 /\ e.upto <= Len(h.chain) ->
+         [h EXCEPT !.held = Append(@, [chain |-> SubSeq(h.chain, 1, e.upto), focus |-> e.focus, fnone |-> h.fnone \cap (1..e.upto)])]
+    [] e.t = "apply" /\ e.i >= 1 /\ e.i <= Len(h.held) ->                               \* a map applied to a copy of a held canvas
+         [h EXCEPT !.held = Append(@, [chain |-> Append(h.held[e.i].chain, [amap |-> e.amap, hasf |-> FALSE, fmap |-> <<>>, lvl |-> 2]),
+                                       focus |-> h.held[e.i].focus, fnone |-> h.held[e.i].fnone])]
+    [] OTHER -> h
+ShownVerdict(c, cells, otherwise) ==        \* c: [chain, focus, fnone] a canvas must agree with
+  LET v == MapsCellsVerdict(c.chain, c.focus, cells) IN
+  IF v = "-" THEN "-"
+  ELSE IF c.focus /\ c.fnone # {} /\ MapsCellsVerdict(LiteralNone(c.chain, c.fnone), c.focus, cells) = "-"
+       THEN "focus_attr_none_means_the_attr_is_used_in_focus"
+  ELSE IF otherwise # "" THEN otherwise ELSE v
+HistVerdict(h, e) ==
+  CASE e.t = "set" -> IF e.j >= 1 /\ e.j <= Len(h.chain) THEN "-" ELSE "harness_history_out_of_range"
+    [] e.t = "hrender" -> IF e.upto < 0 \/ e.upto > Len(h.chain) THEN "harness_history_out_of_range"
+                          ELSE LET n == HistNext(h, e).held IN ShownVerdict(n[Len(n)], e.cells, "")
+    [] e.t = "reread" -> IF e.i < 1 \/ e.i > Len(h.held) THEN "harness_history_out_of_range"
+                         ELSE ShownVerdict(h.held[e.i], e.cells, "held_canvas_keeps_showing_what_it_showed")
+    [] e.t = "apply" -> IF e.i < 1 \/ e.i > Len(h.held) THEN "harness_history_out_of_range"
+                        ELSE LET n == HistNext(h, e).held IN ShownVerdict(n[Len(n)], e.cells, "")
+HistEvents == {"set", "hrender", "reread", "apply"}
 
 (* ---- stage 3: palette -> SGR -> terminal ---- *)
 AliasClause == "alias_resolves_like_the_entry_it_names"
@@ -108,8 +196,10 @@ FrameVerdict(tr, e) ==
           ELSE cl(CHOOSE p \in pick : \A q \in pick : p[1] < q[1] \/ (p[1] = q[1] /\ p[2] <= q[2]))
 
 Verdict(tr, e) ==
-  CASE e.t = "decomp" -> DecompVerdict(tr, e)
+  CASE e.t \in HistEvents -> HistVerdict(hist, e)
+    [] e.t = "decomp" -> DecompVerdict(tr, e)
     [] e.t = "render" -> RenderVerdict(tr, e)
+    [] e.t = "trim"   -> TrimVerdict(tr, e)
     [] e.t = "maps"   -> MapsVerdict(e)
     [] e.t = "frame"  -> FrameVerdict(tr, e)
     [] e.t = "exc"    -> "raised"
@@ -123,6 +213,7 @@ Step == /\ ok
         /\ LET e == Traces[tid].ev[l + 1]
                v == Verdict(Traces[tid], e)
            IN /\ term' = IF e.t \in RD!Known THEN RD!Apply(e) ELSE term
+              /\ hist' = IF e.t \in HistEvents THEN HistNext(hist, e) ELSE hist
               /\ why' = v
               /\ ok' = (v = "-")
 Spec == Init /\ [][Step]_vars
